@@ -7,7 +7,8 @@ the reference model mc/ref/c01_model.py (which derives the expectation from the 
 
 Alphabets (written out in mc/ref/c01_model.py, echoed in evidence): TYPES (39 spellings of the types named in the
 property statement), values_for(type) (boundary values exactly representable in the type, each with a shape label),
-PATHS (10), PLACEMENTS (NULL none / first / middle / last, plus one all-NULL cell per batch).
+PATHS (11; wp_opts = a 5-row DataFrame x chunk_size {None,1,2,n-1,n,n+1} x DataFrame index {default, shifted,
+reversed, string labels, duplicate labels} x parallel {4,1} x quote_identifiers {True,False}), PLACEMENTS (NULL none / first / middle / last, plus one all-NULL cell per batch).
 PLACEMENTS also has "after_identity": the value preceded by the identity value of its type (0, '', False, {}, epoch..).
 quick = every type x every path x QUICK_SHAPES (keeps every identity value) x {none, first, middle, after_identity}
 + all-NULL;  thorough = the full product.
@@ -34,6 +35,8 @@ Not demanded (left out of the product, reasons in c01_model.allowed):
   * DataFrame timestamps outside datetime64[ns]; scalar JSON (str/number/bool cells) through write_pandas
   * auto_create_table for anything but bool / int64 / float64 / str / date / datetime64[ns] columns
   * hex strings implicitly cast to BINARY; strings longer than VARCHAR(n); NaN / infinity
+  * write_pandas overwrite / table_type / create_temp_table / on_error / compression (the statement does not say what
+    they do to "no other row changes" or to column types); the number of chunks write_pandas reports
   * rowcount / status rows of the INSERT (C04), description (C06), fetch_pandas_all dtypes (C05)
 
 Staging tables of the derived paths (INSERT..SELECT / CTAS / CLONE) are filled through a raw DuckDB cursor and then
@@ -183,7 +186,7 @@ def execute_batch(ts, path, cells):
             _raw_insert(rawc, f"{q}.BY1", ts, by_rows)
             target = f"{DB}.{SCHEMA}.T1"
             new_tables = ()
-            if path in M.SQL_PATHS or path == "wp" or path == "insert_select":
+            if path in M.SQL_PATHS or path in ("wp", "wp_opts", "insert_select"):
                 ex(f"CREATE TABLE T1 (ID INT, V {sqlt})")
                 _raw_insert(rawc, f"{q}.T1", ts, by_rows[:2])
             elif path == "wp_subset":
@@ -284,6 +287,12 @@ def execute_batch(ts, path, cells):
             else:
                 df = pd.DataFrame({"ID": idcol, "V": col})
                 name = "T1"
+            if path == "wp_opts":
+                o = c["opts"]
+                labels = M.df_index(o["index"], len(ids))
+                if labels is not None:
+                    df.index = labels
+                kw.update(chunk_size=o["chunk_size"], parallel=o["parallel"], quote_identifiers=o["quote_identifiers"])
             out["stmts"] += 1
             r = _try(lambda: write_pandas(conn, df, name, **kw))
             rec = {"act": ("ok",) if r[0] == "ok" else r, "dtype": M.df_dtype_label(ts, [v for _, v in c["rows"]])}
@@ -321,6 +330,9 @@ def classify(clause, ts, path, cell, rec):
         return f"path=wp_auto,dtype={rec['dtype']}" if clause == "C01.accept" else f"path=wp_auto,column={tg}"
     if clause == "C01.pytype":
         return f"type={tg}"  # the Python type of a column is a function of its declared type alone
+    if path == "wp_opts":
+        o = cell["opts"]  # parallel / quote_identifiers are in the detail, not in the key
+        return f"type={tg},path=wp_opts,chunk={o['chunk']},index={o['index']}"
     vals = [v for _, v in cell["rows"] if v is not None]
     value = vals[-1] if vals else None  # the value the shape label names (an identity value may precede it)
     vc = M.vclass(ts, cell["shape"], value, vals[:-1])
@@ -434,7 +446,12 @@ def run_batch(item, acc: core.Acc, tier):
 
 
 def items_for(tier):
-    return [(t["sql"], p) for t in M.TYPES for p in M.PATHS if M.type_applies(t, p)]
+    return [
+        (t["sql"], p)
+        for t in M.TYPES
+        for p in M.PATHS
+        if M.type_applies(t, p) and not (tier == "quick" and p == "wp_opts" and t["sql"] not in M.WP_OPTS_QUICK_TYPES)
+    ]
 
 
 def run(ctx: core.Ctx):
@@ -467,6 +484,11 @@ def run(ctx: core.Ctx):
     ordered = [r for _, r in sorted(res, key=lambda x: order[tuple(x[0])])]
     ctx.acc.samples = [ordered[i]["sample"] for i in sorted({0, len(ordered) // 3, 2 * len(ordered) // 3, len(ordered) - 1})]
     ctx.exhaustive = True
+    ctx.extra["write_pandas_options"] = {
+        "rows_per_dataframe": M.WP_OPTS_N, "chunk_size": [c for _, c in M.WP_CHUNKS], "index": M.WP_INDEXES,
+        "parallel": M.WP_PARALLEL, "quote_identifiers": M.WP_QUOTE,
+        "types": list(M.WP_OPTS_QUICK_TYPES) if ctx.quick else "all",
+    }
     ctx.extra["alphabet"] = {
         "types": [t["sql"] for t in M.TYPES],
         "paths": M.PATHS,
